@@ -1,7 +1,210 @@
 import TbbVerif.Core.Proto
+import TbbVerif.Model.C05
 
-open TbbVerif
+open TbbVerif TbbVerif.C05
 
-def drivers : List (String × Proto.Driver) := []
+namespace C05Drv
+
+def showR1 (r : R1) : String := s!"{r.b} {r.e}"
+def showDims (d : List R1) : String := " ".intercalate (d.map showR1)
+def showPart (p : Part) : String := s!"{p.divisor} {p.maxDepth} {p.delay} {p.head} {p.maxAff}"
+
+def kind? (s : String) : Option Kind :=
+  match s with
+  | "simple" => some .simple | "auto" => some .auto | "static" => some .static | "affinity" => some .affinity
+  | _ => none
+
+/-- flavour of an N-d range: "1" blocked_range, "2" blocked_range2d, "3" blocked_range3d, "n" blocked_nd_range -/
+def opsOf? (fl : String) (k : Nat) : Option (RangeOps (List R1)) :=
+  match fl with
+  | "1" => if k = 1 then some (opsN (fun _ => 0)) else none
+  | "2" => if k = 2 then some (opsN sel2) else none
+  | "3" => if k = 3 then some (opsN sel3) else none
+  | "n" => if 1 ≤ k then some (opsN selNd) else none
+  | _ => none
+
+def selOf (fl : String) (d : List R1) : Nat :=
+  match fl with
+  | "2" => sel2 d | "3" => sel3 d | "n" => selNd d | _ => 0
+
+/-- the dimension in which `(a, c)` differs from `d`, as an observer of the real split constructor sees it -/
+def obsDim (d a c : List R1) : Int :=
+  let idx := (List.range d.length).filter (fun i => !(d[i]? == a[i]? && d[i]? == c[i]?))
+  match idx with
+  | [] => -2
+  | [i] => (i : Int)
+  | _ => -3
+
+def dims? : Nat → List Nat → Option (List R1 × List Nat)
+  | 0, rest => some ([], rest)
+  | k + 1, b :: e :: g :: rest =>
+    if b ≤ e ∧ e < U64 ∧ g < U64 then
+      match dims? k rest with
+      | some (ds, rest') => some ({ b := b, e := e, g := g } :: ds, rest')
+      | none => none
+    else none
+  | _, _ => none
+
+def bits? (ws : List String) : Option (List Bool) :=
+  ws.mapM (fun w => match w with | "0" => some false | "1" => some true | _ => none)
+
+def showEv (e : Ev (List R1)) : String :=
+  match e with
+  | .body r => s!"B {showDims r}"
+  | .spawn r p => s!"S {showDims r} | {showPart p}"
+  | .drop r => s!"D {showDims r}"
+
+def fuelBig : Nat := 100000000
+
+/-- is `bounds` (sorted chunk boundaries b = m0 < m1 < … = e) the leaf sequence of a legal split tree of
+`[b,e)` with grain `g`: every inner node divisible and cut at the midpoint or at a proportional point for
+some `n ≤ P` (`right = n/2`, `left = n - n/2`)? -/
+def legalTree (g P : Nat) : Nat → List Nat → Bool
+  | 0, _ => false
+  | f + 1, ms =>
+    match ms with
+    | [] => false
+    | [_] => false
+    | [_, _] => true
+    | b :: rest =>
+      match ms.getLast? with
+      | none => false
+      | some e =>
+        let r : R1 := { b := b, e := e, g := g }
+        if !r.divisible then false else
+          let cands := (splitMid r).1.e ::
+            (List.range (P + 1)).filterMap (fun n =>
+              if n < 2 then none else
+                match splitProp r (n - n / 2) (n / 2) with
+                | some (a, _) => some a.e
+                | none => none)
+          cands.eraseDups.any (fun m =>
+            if rest.dropLast.contains m then
+              let left := ms.takeWhile (· < m) ++ [m]
+              let right := ms.dropWhile (· < m)
+              legalTree g P f left && legalTree g P f right
+            else false)
+
+structure St where
+  rv : Option (RV R1) := none
+
+def showRV (v : RV R1) : String :=
+  let items := v.toList.map (fun (x : R1 × Nat) => s!"{x.2}:{x.1.b}:{x.1.e}")
+  s!"{v.head} {v.tail} {v.size} |" ++ String.join (items.map (fun x => " " ++ x))
+
+open Proto in
+def step (st : St) (ws : List String) : St × String :=
+  match ws with
+  | "s1" :: rest =>
+    match nats? rest with
+    | some [b, e, g] =>
+      if b ≤ e ∧ e < U64 ∧ g < U64 then
+        let r : R1 := { b := b, e := e, g := g }
+        let (a, c) := splitMid r
+        (st, s!"{showBool r.divisible} {showBool r.isEmpty} {showR1 a} {showR1 c}")
+      else (st, "bad-op")
+    | _ => (st, "bad-op")
+  | "p1" :: rest =>
+    match nats? rest with
+    | some [b, e, g, l, r] =>
+      if b ≤ e ∧ e < U64 ∧ g < U64 ∧ l < U64 ∧ r < U64 then
+        match splitProp { b := b, e := e, g := g } l r with
+        | some (a, c) => (st, s!"{showR1 a} {showR1 c}")
+        | none => (st, "ub")
+      else (st, "bad-op")
+    | _ => (st, "bad-op")
+  | "sn" :: fl :: k :: rest =>
+    match nat? k, nats? rest with
+    | some k, some xs =>
+      match dims? k xs, opsOf? fl k with
+      | some (d, []), some ops =>
+        let (a, c) := ops.split d
+        (st, s!"{showBool (ops.divisible d)} {showBool (ops.isEmpty d)} {obsDim d a c} {showDims a} {showDims c}")
+      | _, _ => (st, "bad-op")
+    | _, _ => (st, "bad-op")
+  | "pn" :: fl :: k :: rest =>
+    match nat? k, nats? rest with
+    | some k, some xs =>
+      match dims? k xs, opsOf? fl k with
+      | some (d, [l, r]), some ops =>
+        if l < U64 ∧ r < U64 then
+          match ops.psplit d l r with
+          | some (a, c) => (st, s!"{obsDim d a c} {showDims a} {showDims c}")
+          | none => (st, "ub")
+        else (st, "bad-op")
+      | _, _ => (st, "bad-op")
+    | _, _ => (st, "bad-op")
+  | ["rv", "init", b, e, g] =>
+    match nat? b, nat? e, nat? g with
+    | some b, some e, some g =>
+      if b ≤ e ∧ e < U64 ∧ g < U64 then
+        let v := RV.init ({ b := b, e := e, g := g } : R1)
+        ({ rv := some v }, showRV v)
+      else (st, "bad-op")
+    | _, _, _ => (st, "bad-op")
+  | ["rv", "fill", d] =>
+    match nat? d, st.rv with
+    | some d, some v =>
+      if d < depthMod ∧ v.size > 0 then
+        let v := RV.splitToFill ops1 d RV.cap v
+        ({ rv := some v }, showRV v)
+      else (st, "bad-op")
+    | _, _ => (st, "bad-op")
+  | ["rv", "popb"] =>
+    match st.rv with
+    | some v => if v.size > 0 then let v := v.popBack; ({ rv := some v }, showRV v) else (st, "bad-op")
+    | none => (st, "bad-op")
+  | ["rv", "popf"] =>
+    match st.rv with
+    | some v => if v.size > 0 then let v := v.popFront; ({ rv := some v }, showRV v) else (st, "bad-op")
+    | none => (st, "bad-op")
+  | "task" :: kd :: fl :: k :: rest =>
+    -- task <kind> <flavour> <k> (b e g)^k divisor maxDepth delay head maxAff stolen ref2 H bits… C bits…
+    match kind? kd, nat? k with
+    | some kd, some k =>
+      let (numWs, tailWs) := rest.span (· ≠ "H")
+      let (hookWs, cancelWs) := (tailWs.drop 1).span (· ≠ "C")
+      match nats? numWs, bits? hookWs, bits? (cancelWs.drop 1), opsOf? fl k with
+      | some xs, some hooks, some cancels, some ops =>
+        match dims? k xs with
+        | some (d, [dv, md, dl, hd, ma, sto, r2]) =>
+          if md < depthMod ∧ dl ≤ 2 ∧ sto ≤ 1 ∧ r2 ≤ 1 ∧ dv < U64 ∧ (kd = .simple ∨ kd = .auto ∨ 0 < ma) then
+            let p : Part := { kind := kd, divisor := dv, maxDepth := md, delay := dl, head := hd, maxAff := ma }
+            let s0 : MockSt := { stolen := sto = 1, ref2 := r2 = 1, flag := false, hooks := hooks, cancels := cancels }
+            match execTask ops mockEnv fuelBig d p s0 with
+            | some (evs, _) => (st, " ; ".intercalate (evs.map showEv))
+            | none => (st, "ub")
+          else (st, "bad-op")
+        | _ => (st, "bad-op")
+      | _, _, _, _ => (st, "bad-op")
+    | _, _ => (st, "bad-op")
+  | "loop" :: kd :: p :: fl :: k :: rest =>
+    -- whole loop without any steal / cancellation: sorted chunk list
+    match kind? kd, nat? p, nat? k, nats? rest with
+    | some kd, some P, some k, some xs =>
+      match dims? k xs, opsOf? fl k with
+      | some (d, []), some ops =>
+        if 1 ≤ P then
+          match runLoop ops bitsEnv fuelBig kd P 0 d [] with
+          | some (ran, _, _) =>
+            let strs := ran.map showDims
+            (st, s!"{ran.length} " ++ " ; ".intercalate (strs.toArray.qsort (· < ·)).toList)
+          | none => (st, "ub")
+        else (st, "bad-op")
+      | _, _ => (st, "bad-op")
+    | _, _, _, _ => (st, "bad-op")
+  | "tree" :: p :: g :: rest =>
+    match nat? p, nat? g, nats? rest with
+    | some P, some g, some ms =>
+      if ms.length ≥ 2 ∧ ms.Pairwise (· < ·) ∧ ms.all (· < U64) then (st, showBool (legalTree g P (ms.length + 2) ms))
+      else (st, "bad-op")
+    | _, _, _ => (st, "bad-op")
+  | _ => (st, "bad-op")
+
+def driver : Proto.Driver := { σ := St, init := {}, step := step }
+
+end C05Drv
+
+def drivers : List (String × Proto.Driver) := [("c05", C05Drv.driver)]
 
 def main (args : List String) : IO UInt32 := Proto.mainOf drivers args
